@@ -234,10 +234,266 @@ theorem pass_spec (ops : Ops β α) (tw : Array β) (k s offset count : Nat) (a 
         have : 2 * 2 ^ k' * s = t * (2 * s) + 2 * s + 2 * d * s := by rw [hd]; ring
         omega
       obtain ⟨b', e', hs', hv'⟩ := pairLoop (fun j a => butterflyTw ops tw[t] a j s)
-        ops.add (fun x y => ops.sub x y) s (fun a j h => by
-          obtain ⟨r, h1, h2, h3⟩ := butterflyTw_spec ops tw[t] a j s hs h
-          exact ⟨r, h1, h2, h3⟩) hs (offset + t * (2 * s)) count b (by omega) hb2
-      sorry)
-  sorry
+        (fun x y => ops.add x (ops.mulBase y tw[t])) (fun x y => ops.sub x (ops.mulBase y tw[t])) s
+        (fun a j h => butterflyTw_spec ops tw[t] a j s hs h) hs (offset + t * (2 * s)) count b (by omega) hb2
+      refine ⟨b', e', by omega, ?_⟩
+      intro m c hc
+      rw [hv']
+      have elo : offset + t * (2 * s) = offset + (2 * t) * s := by ring
+      have ehi : offset + t * (2 * s) + s = offset + (2 * t + 1) * s := by ring
+      rw [ehi, elo]
+      have w0 := win_iff s c m offset count (2 * t) hc hw
+      have w1 := win_iff s c m offset count (2 * t + 1) hc hw
+      have hgetD : tw.getD t default = tw[t] := by simp [Array.getD, htw']
+      by_cases hwin : offset ≤ c ∧ c < offset + count
+      · by_cases m0 : m = 2 * t
+        · subst m0
+          have c1 := w0.mpr ⟨rfl, hwin⟩
+          rw [if_pos c1, if_pos ⟨hwin, by omega⟩]
+          have x1 := hbv (2 * t) c hc
+          rw [if_neg (by omega)] at x1
+          have x2 := hbv (2 * t + 1) c hc
+          rw [if_neg (by omega)] at x2
+          have ep : c + 2 * t * s + s = c + (2 * t + 1) * s := by ring
+          rw [ep, x1, x2]
+          have d1 : 2 * t / 2 = t := by omega
+          have d2 : 2 * t % 2 = 0 := by omega
+          have d3 : ¬ t = 0 := by omega
+          simp only [bfOut, d1, d2, d3, ↓reduceIte, hgetD]
+        · by_cases m1 : m = 2 * t + 1
+          · subst m1
+            have c0 : ¬ (offset + 2 * t * s ≤ c + (2 * t + 1) * s ∧ c + (2 * t + 1) * s < offset + 2 * t * s + count) :=
+              fun h => by have := (w0.mp h).1; omega
+            have c1 := w1.mpr ⟨rfl, hwin⟩
+            rw [if_neg c0, if_pos c1, if_pos ⟨hwin, by omega⟩]
+            have x1 := hbv (2 * t) c hc
+            rw [if_neg (by omega)] at x1
+            have x2 := hbv (2 * t + 1) c hc
+            rw [if_neg (by omega)] at x2
+            have ep : c + (2 * t + 1) * s - s = c + 2 * t * s := by
+              have : c + (2 * t + 1) * s = c + 2 * t * s + s := by ring
+              omega
+            rw [ep, x1, x2]
+            have d1 : (2 * t + 1) / 2 = t := by omega
+            have d2 : ¬ (2 * t + 1) % 2 = 0 := by omega
+            have d3 : ¬ t = 0 := by omega
+            simp only [bfOut, d1, d2, d3, ↓reduceIte, hgetD]
+          · have c0 : ¬ (offset + 2 * t * s ≤ c + m * s ∧ c + m * s < offset + 2 * t * s + count) :=
+              fun h => m0 (w0.mp h).1
+            have c1 : ¬ (offset + (2 * t + 1) * s ≤ c + m * s ∧ c + m * s < offset + (2 * t + 1) * s + count) :=
+              fun h => m1 (w1.mp h).1
+            rw [if_neg c0, if_neg c1, hbv m c hc]
+            have e : ((offset ≤ c ∧ c < offset + count) ∧ m / 2 < t) ↔
+                ((offset ≤ c ∧ c < offset + count) ∧ m / 2 < t + 1) := by omega
+            simp only [e]
+      · have c0 : ¬ (offset + 2 * t * s ≤ c + m * s ∧ c + m * s < offset + 2 * t * s + count) :=
+          fun h => hwin (w0.mp h).2
+        have c1 : ¬ (offset + (2 * t + 1) * s ≤ c + m * s ∧ c + m * s < offset + (2 * t + 1) * s + count) :=
+          fun h => hwin (w1.mp h).2
+        rw [if_neg c0, if_neg c1, hbv m c hc, if_neg (fun h => hwin h.1), if_neg (fun h => hwin h.1)])
+  obtain ⟨b, e, hbs, hbv⟩ := hloop
+  have e1' : 1 + (2 ^ k' - 1) = 2 ^ k' := by omega
+  rw [e1'] at hbv
+  refine ⟨b, e, hbs, ?_⟩
+  intro m c hm hc
+  rw [hbv m c hc]
+  have hm2 : m / 2 < 2 ^ k' := by rw [hpow] at hm; omega
+  by_cases hwin : offset ≤ c ∧ c < offset + count
+  · rw [if_pos ⟨hwin, hm2⟩, if_pos hwin]
+  · rw [if_neg (fun h => hwin h.1), if_neg hwin]
+
+end WinterProofs.C09
+
+namespace WinterProofs.C09
+open Model.Fft
+
+variable {β α : Type} [Inhabited α] [Inhabited β]
+
+/-- the interleaved sub-sequence `c, c + s, c + 2s, …` of an array -/
+def sub (a : Array α) (c s : Nat) : Nat → α := fun j => vw a (c + j * s)
+
+/-- the twiddle table as a function -/
+def twf (tw : Array β) : Nat → β := fun i => tw.getD i default
+
+/-- `fftRec k` only reads `x j` for `j < 2^k` -/
+theorem fftRec_congr (ops : Ops β α) (t : Nat → β) (k : Nat) : ∀ (x y : Nat → α),
+    (∀ j, j < 2 ^ k → x j = y j) → ∀ m, m < 2 ^ k → fftRec ops t k x m = fftRec ops t k y m := by
+  induction k with
+  | zero => intro x y h m hm; simpa [fftRec] using h m hm
+  | succ k ih =>
+    intro x y h m hm
+    have hpow : (2 : Nat) ^ (k + 1) = 2 * 2 ^ k := by rw [Nat.pow_succ]; ring
+    have hm2 : m / 2 < 2 ^ k := by rw [hpow] at hm; omega
+    have he := ih (fun j => x (2 * j)) (fun j => y (2 * j)) (fun j hj => h (2 * j) (by rw [hpow]; omega)) (m / 2) hm2
+    have ho := ih (fun j => x (2 * j + 1)) (fun j => y (2 * j + 1)) (fun j hj => h (2 * j + 1) (by rw [hpow]; omega)) (m / 2) hm2
+    simp only [fftRec, he, ho]
+
+theorem fftInPlace_succ (ops : Ops β α) (maxLoop : Nat) (tw : Array β) (fuel count stride offset : Nat)
+    (a : Array α) :
+    fftInPlace ops maxLoop tw (fuel + 1) count stride offset a =
+      if stride = 0 then none else
+      if ¬ (isPow2 (a.size / stride) ∧ offset < stride ∧ a.size % (a.size / stride) = 0) then none else
+      (if a.size / stride > 2 then
+        if stride = count ∧ count < maxLoop then
+          fftInPlace ops maxLoop tw fuel (2 * count) (2 * stride) offset a
+        else
+          (fftInPlace ops maxLoop tw fuel count (2 * stride) offset a).bind
+            (fftInPlace ops maxLoop tw fuel count (2 * stride) (offset + stride))
+      else some a).bind (passLoops ops tw (a.size / stride) count stride offset) := by
+  rfl
+
+/-- state between the recursive calls and the butterfly pass of a level working on sub-sequences of
+    length `2^(k+1)`: every even/odd half (stride `2s`) in the window holds its bit-reversed transform -/
+def Mid (ops : Ops β α) (tw : Array β) (k s offset count : Nat) (a a2 : Array α) : Prop :=
+  a2.size = a.size ∧ ∀ i e c, i < 2 ^ k → e < 2 → c < s →
+    vw a2 (c + (2 * i + e) * s) =
+      if offset ≤ c ∧ c < offset + count then fftRec ops (twf tw) k (sub a (c + e * s) (2 * s)) i
+      else vw a (c + (2 * i + e) * s)
+
+/-- the butterfly pass turns `Mid k` into the level-`(k+1)` postcondition -/
+theorem pass_of_mid (ops : Ops β α) (tw : Array β) (k s offset count : Nat) (a a2 : Array α)
+    (hs : 0 < s) (hsz : a.size = 2 ^ (k + 1) * s) (hw : offset + count ≤ s) (htw : 2 ^ k ≤ tw.size)
+    (hmid : Mid ops tw k s offset count a a2) :
+    ∃ b, passLoops ops tw (2 ^ (k + 1)) count s offset a2 = some b ∧ b.size = a.size ∧
+      ∀ m c, m < 2 ^ (k + 1) → c < s →
+        vw b (c + m * s) = if offset ≤ c ∧ c < offset + count then fftRec ops (twf tw) (k + 1) (sub a c s) m
+                           else vw a (c + m * s) := by
+  obtain ⟨hsz2, hmid⟩ := hmid
+  obtain ⟨b, e, hbs, hbv⟩ := pass_spec ops tw (k + 1) s offset count a2 (by omega) hs (by rw [hsz2, hsz]) hw
+    (by simpa using htw)
+  refine ⟨b, e, by rw [hbs, hsz2], ?_⟩
+  intro m c hm hc
+  rw [hbv m c hm hc]
+  have hpow : (2 : Nat) ^ (k + 1) = 2 * 2 ^ k := by rw [Nat.pow_succ]; ring
+  obtain ⟨i, e, he, rfl⟩ : ∃ i e, e < 2 ∧ m = 2 * i + e := ⟨m / 2, m % 2, Nat.mod_lt _ (by decide), by omega⟩
+  have hi : i < 2 ^ k := by rw [hpow] at hm; omega
+  by_cases hwin : offset ≤ c ∧ c < offset + count
+  · rw [if_pos hwin, if_pos hwin]
+    have d1 : (2 * i + e) / 2 = i := by omega
+    have d2 : (2 * i + e) % 2 = e := by omega
+    have x0 := hmid i 0 c hi (by decide) hc
+    have x1 := hmid i 1 c hi (by decide) hc
+    rw [if_pos hwin] at x0 x1
+    simp only [Nat.add_zero, Nat.zero_mul, Nat.one_mul] at x0 x1
+    have f0 : sub a c (2 * s) = fun j => sub a c s (2 * j) := by
+      funext j; simp only [sub]; congr 1; ring
+    have f1 : sub a (c + s) (2 * s) = fun j => sub a c s (2 * j + 1) := by
+      funext j; simp only [sub]; congr 1; ring
+    simp only [bfOut, fftRec, d1, d2, x0, x1, f0, f1, twf]
+  · rw [if_neg hwin, if_neg hwin]
+    have x := hmid i e c hi he hc
+    rw [if_neg hwin] at x
+    exact x
+
+/-- (h) the in-place strided recursion: called with `(count, stride, offset)` on an array of `2^(k+1)·stride`
+    elements it does not panic, replaces every sub-sequence `c + j·stride` with `offset ≤ c < offset + count`
+    by the clean recursive transform `fftRec` of that sub-sequence, and leaves everything else unchanged —
+    for every level `k`, every `MAX_LOOP`, any operations -/
+theorem fftInPlace_spec (ops : Ops β α) (maxLoop : Nat) (tw : Array β) (k : Nat) :
+    ∀ (fuel count stride offset : Nat) (a : Array α),
+      k + 1 ≤ fuel → 0 < stride → a.size = 2 ^ (k + 1) * stride → offset + count ≤ stride → offset < stride →
+      2 ^ k ≤ tw.size →
+      ∃ b, fftInPlace ops maxLoop tw fuel count stride offset a = some b ∧ b.size = a.size ∧
+        ∀ m c, m < 2 ^ (k + 1) → c < stride →
+          vw b (c + m * stride) =
+            if offset ≤ c ∧ c < offset + count then fftRec ops (twf tw) (k + 1) (sub a c stride) m
+            else vw a (c + m * stride) := by
+  induction k with
+  | zero =>
+    intro fuel count s offset a hf hs hsz hw ho htw
+    obtain ⟨f, rfl⟩ : ∃ f, fuel = f + 1 := ⟨fuel - 1, by omega⟩
+    have hdiv : a.size / s = 2 ^ (0 + 1) := by rw [hsz]; exact Nat.mul_div_cancel _ hs
+    rw [fftInPlace_succ, hdiv]
+    have hmod : a.size % 2 ^ (0 + 1) = 0 := by rw [hsz]; exact Nat.mul_mod_right _ _
+    have c1 : ¬ s = 0 := by omega
+    have c2 : ¬ ¬ (isPow2 (2 ^ (0 + 1)) = true ∧ offset < s ∧ a.size % 2 ^ (0 + 1) = 0) :=
+      not_not.mpr ⟨isPow2_two_pow _, ho, hmod⟩
+    have c3 : ¬ (2 ^ (0 + 1) > 2) := by decide
+    rw [if_neg c1, if_neg c2, if_neg c3, Option.bind_some]
+    apply pass_of_mid ops tw 0 s offset count a a hs hsz hw htw
+    refine ⟨rfl, ?_⟩
+    intro i e c hi he hc
+    have : i = 0 := by simpa using hi
+    subst this
+    by_cases hwin : offset ≤ c ∧ c < offset + count
+    · rw [if_pos hwin]; simp [fftRec, sub]
+    · rw [if_neg hwin]
+  | succ k ih =>
+    intro fuel count s offset a hf hs hsz hw ho htw
+    obtain ⟨f, rfl⟩ : ∃ f, fuel = f + 1 := ⟨fuel - 1, by omega⟩
+    have hpow : (2 : Nat) ^ (k + 1 + 1) = 2 * 2 ^ (k + 1) := by rw [Nat.pow_succ]; ring
+    have hpow' : (2 : Nat) ^ (k + 1) = 2 * 2 ^ k := by rw [Nat.pow_succ]; ring
+    have hdiv : a.size / s = 2 ^ (k + 1 + 1) := by rw [hsz]; exact Nat.mul_div_cancel _ hs
+    rw [fftInPlace_succ, hdiv]
+    have hmod : a.size % 2 ^ (k + 1 + 1) = 0 := by rw [hsz]; exact Nat.mul_mod_right _ _
+    have c1 : ¬ s = 0 := by omega
+    have c2 : ¬ ¬ (isPow2 (2 ^ (k + 1 + 1)) = true ∧ offset < s ∧ a.size % 2 ^ (k + 1 + 1) = 0) :=
+      not_not.mpr ⟨isPow2_two_pow _, ho, hmod⟩
+    have c3 : 2 ^ (k + 1 + 1) > 2 := by
+      have : 0 < 2 ^ k := Nat.pow_pos (by decide)
+      rw [hpow, hpow']; omega
+    rw [if_neg c1, if_neg c2, if_pos c3]
+    have hsz2 : a.size = 2 ^ (k + 1) * (2 * s) := by rw [hsz, hpow]; ring
+    have htw' : 2 ^ k ≤ tw.size := by rw [hpow'] at htw; omega
+    -- the state after the recursive call(s)
+    have hmid : ∃ a2, (if s = count ∧ count < maxLoop then
+          fftInPlace ops maxLoop tw f (2 * count) (2 * s) offset a
+        else
+          (fftInPlace ops maxLoop tw f count (2 * s) offset a).bind
+            (fftInPlace ops maxLoop tw f count (2 * s) (offset + s))) = some a2 ∧
+        Mid ops tw (k + 1) s offset count a a2 := by
+      by_cases hbr : s = count ∧ count < maxLoop
+      · -- one call handling all `2·count` sub-sequences of stride `2s`
+        rw [if_pos hbr]
+        obtain ⟨b, e, hbs, hbv⟩ := ih f (2 * count) (2 * s) offset a (by omega) (by omega) hsz2 (by omega) (by omega) htw'
+        refine ⟨b, e, hbs, ?_⟩
+        intro i e c hi he hc
+        have hc' : c + e * s < 2 * s := by
+          have : e = 0 ∨ e = 1 := by omega
+          rcases this with rfl | rfl <;> omega
+        have x := hbv i (c + e * s) hi hc'
+        have ep : c + e * s + i * (2 * s) = c + (2 * i + e) * s := by ring
+        rw [ep] at x
+        rw [x]
+        have w1 : offset ≤ c + e * s ∧ c + e * s < offset + 2 * count := by omega
+        have w2 : offset ≤ c ∧ c < offset + count := by omega
+        rw [if_pos w1, if_pos w2]
+      · -- two calls: even halves (offset) then odd halves (offset + stride)
+        rw [if_neg hbr]
+        obtain ⟨b1, e1, hbs1, hbv1⟩ := ih f count (2 * s) offset a (by omega) (by omega) hsz2 (by omega) (by omega) htw'
+        obtain ⟨b2, e2, hbs2, hbv2⟩ := ih f count (2 * s) (offset + s) b1 (by omega) (by omega)
+          (by rw [hbs1]; exact hsz2) (by omega) (by omega) htw'
+        refine ⟨b2, by rw [e1]; exact e2, by rw [hbs2, hbs1], ?_⟩
+        intro i e c hi he hc
+        have ep : c + e * s + i * (2 * s) = c + (2 * i + e) * s := by ring
+        have he' : e = 0 ∨ e = 1 := by omega
+        rcases he' with rfl | rfl
+        · have hc' : c + 0 * s < 2 * s := by omega
+          have x2 := hbv2 i (c + 0 * s) hi hc'
+          have x1 := hbv1 i (c + 0 * s) hi hc'
+          rw [ep] at x1 x2
+          rw [x2, if_neg (by omega), x1]
+          have e : (offset ≤ c + 0 * s ∧ c + 0 * s < offset + count) ↔ (offset ≤ c ∧ c < offset + count) := by omega
+          simp only [e]
+        · have hc' : c + 1 * s < 2 * s := by omega
+          have x2 := hbv2 i (c + 1 * s) hi hc'
+          rw [ep] at x2
+          rw [x2]
+          -- the odd half was not touched by the first call
+          have hsame : ∀ j, j < 2 ^ (k + 1) → sub b1 (c + 1 * s) (2 * s) j = sub a (c + 1 * s) (2 * s) j := by
+            intro j hj
+            have x1 := hbv1 j (c + 1 * s) hj hc'
+            rw [if_neg (by omega)] at x1
+            exact x1
+          by_cases hwin : offset ≤ c ∧ c < offset + count
+          · rw [if_pos (by omega), if_pos hwin]
+            exact fftRec_congr ops (twf tw) (k + 1) _ _ hsame i hi
+          · rw [if_neg (by omega), if_neg hwin]
+            have x1 := hbv1 i (c + 1 * s) hi hc'
+            rw [ep, if_neg (by omega)] at x1
+            exact x1
+    obtain ⟨a2, e2, hm2⟩ := hmid
+    rw [e2, Option.bind_some]
+    exact pass_of_mid ops tw (k + 1) s offset count a a2 hs hsz hw htw hm2
 
 end WinterProofs.C09
